@@ -27,7 +27,11 @@
 //!                simulated time; every poll returns (device-call budget + wall-clock watchdog) and
 //!                nothing panics.
 //!  timing      - per query on the wire: gaps between transmissions to one server never shrink
-//!                (back-off) and the next server is first addressed >= 10 s after the previous one.
+//!                (back-off) and the next server is first addressed >= 10 s after the previous one;
+//!                a query is not failed by time-out earlier than 10 s after the FIRST transmission to
+//!                the server it was last sent to; the send times towards server k, relative to the
+//!                first transmission to it, repeat those towards the first server, and server k has
+//!                received as many datagrams as the first one when the query leaves it by time.
 
 pub mod msg;
 pub mod watch;
@@ -303,34 +307,34 @@ fn alphabet(ci: &CfgInner, qi: usize) -> (Vec<RSpec>, BTreeMap<String, usize>) {
     (v, groups)
 }
 
-/// (configuration, BFS depth). Quick: reduced alphabet, depth 4. Thorough: the full alphabet
-/// (full product of the matching dimensions, a pointer to EVERY offset) to depth 4 (3 for two
-/// queries) and the reduced alphabet to fixpoint or depth 24 (5 for two queries) - the full alphabet at depth 6
-/// does not fit in memory (every distinct rewritten query name multiplies the state count).
+/// (configuration, BFS depth). Quick: reduced alphabet, depth 6 (4 for two queries). Thorough: the
+/// full alphabet (full product of the matching dimensions, a pointer to EVERY offset) and the
+/// reduced alphabet, every configuration to its fixpoint (depth bound 24 is never reached on the
+/// unchanged tree) under the state cap explained in `run`.
 fn configs(tier: Tier) -> Vec<(DnsCfg, usize)> {
     let ns = DNS_MAX_SERVER_COUNT.min(2);
     let a = ("ab.c", T_A);
     let mut v = vec![];
     if tier == Tier::Quick {
-        v.push((make_cfg("1q-A/reduced", ns, &[a], false), 4));
-        v.push((make_cfg("1q-AAAA/reduced", ns, &[("ab.c", T_AAAA)], false), 4));
+        v.push((make_cfg("1q-A/reduced", ns, &[a], false), 6));
+        v.push((make_cfg("1q-AAAA/reduced", ns, &[("ab.c", T_AAAA)], false), 6));
         v.push((make_cfg("2q-A+A/reduced", ns, &[a, ("de.c", T_A)], false), 4));
-        v.push((make_cfg("1q-mdns-A/reduced", ns, &[("ab.local", T_A)], false), 4));
+        v.push((make_cfg("1q-mdns-A/reduced", ns, &[("ab.local", T_A)], false), 6));
         if ns > 1 {
             // also the single-server case under the `small` build
-            v.push((make_cfg("1q-A-1srv/reduced", 1, &[a], false), 4));
+            v.push((make_cfg("1q-A-1srv/reduced", 1, &[a], false), 6));
         }
     } else {
-        v.push((make_cfg("1q-A/full", ns, &[a], true), 4));
-        v.push((make_cfg("1q-AAAA/full", ns, &[("ab.c", T_AAAA)], true), 4));
-        v.push((make_cfg("2q-A+A/full", ns, &[a, ("de.c", T_A)], true), 3));
-        v.push((make_cfg("2q-A+AAAA-same-name/full", ns, &[a, ("ab.c", T_AAAA)], true), 3));
-        v.push((make_cfg("1q-mdns-A/full", ns, &[("ab.local", T_A)], true), 4));
+        v.push((make_cfg("1q-A/full", ns, &[a], true), 24));
+        v.push((make_cfg("1q-AAAA/full", ns, &[("ab.c", T_AAAA)], true), 24));
+        v.push((make_cfg("2q-A+A/full", ns, &[a, ("de.c", T_A)], true), 24));
+        v.push((make_cfg("2q-A+AAAA-same-name/full", ns, &[a, ("ab.c", T_AAAA)], true), 24));
+        v.push((make_cfg("1q-mdns-A/full", ns, &[("ab.local", T_A)], true), 24));
         v.push((make_cfg("1q-A/reduced", ns, &[a], false), 24));
         v.push((make_cfg("1q-mdns-A/reduced", ns, &[("ab.local", T_A)], false), 24));
-        v.push((make_cfg("2q-A+A/reduced", ns, &[a, ("de.c", T_A)], false), 5));
+        v.push((make_cfg("2q-A+A/reduced", ns, &[a, ("de.c", T_A)], false), 24));
         if ns > 1 {
-            v.push((make_cfg("1q-A-1srv/full", 1, &[a], true), 4));
+            v.push((make_cfg("1q-A-1srv/full", 1, &[a], true), 24));
             v.push((make_cfg("1q-A-1srv/reduced", 1, &[a], false), 24));
         }
     }
@@ -375,6 +379,8 @@ struct QModel {
     cur_dst_first: i64,
     last_tx: i64,
     last_gap: i64,
+    /// per server (in order of first use): send times relative to the first transmission to it
+    sched: Vec<Vec<i64>>,
     /// evidence only (not part of the fingerprint)
     txlog: Vec<(i64, String)>,
 }
@@ -624,19 +630,72 @@ impl DnsH {
                 viol = Some(("timing/backoff-gap-shrinks", format!("query {}: gap {} us after a gap of {} us to the same server", k, gap, m.last_gap)));
             }
             m.last_gap = gap;
+            let rel = ts - m.cur_dst_first;
+            if let Some(cur) = m.sched.last_mut() {
+                cur.push(rel);
+            }
         } else {
             if !m.cur_dst.is_empty() && ts - m.cur_dst_first < PER_SERVER_S * SEC {
                 viol = Some(("timing/failover-before-10s", format!("query {}: next server first addressed {} us after the previous one", k, ts - m.cur_dst_first)));
             }
+            // the server being left (if it is not the first one) must have been sent as many
+            // datagrams as the first one
+            if viol.is_none() {
+                viol = Self::schedule_short(m, k, "moving to the next server");
+            }
             m.cur_dst = dst.clone();
             m.cur_dst_first = ts;
             m.last_gap = 0;
+            m.sched.push(vec![0]);
+        }
+        // "retransmitting with back-off ... moving to the next server": the schedule towards server
+        // k repeats the schedule towards the first server (same relative send times; on the
+        // unchanged tree 0, 1, 3, 7 s when polled exactly at poll_at). Only entries the first
+        // server also has are compared (lenient).
+        if viol.is_none() && m.sched.len() >= 2 {
+            let s = m.sched.len() - 1;
+            let i = m.sched[s].len() - 1;
+            if let Some(&want) = m.sched[0].get(i) {
+                let got = m.sched[s][i];
+                if got != want {
+                    viol = Some((
+                        "timing/server-schedule-differs-from-first-server",
+                        format!(
+                            "query {}: transmission #{} to server #{} goes out {} us after the first one to that server, towards the first server it was {} us (schedules {:?})",
+                            k, i + 1, s + 1, got, want, m.sched
+                        ),
+                    ));
+                }
+            }
         }
         m.last_tx = ts;
         m.txlog.push((ts, format!("{}:{}", dst.iter().map(|b| b.to_string()).collect::<Vec<_>>().join("."), dport)));
         if let Some((s, d)) = viol {
             self.fail(out, s, d);
         }
+    }
+
+    /// A server other than the first got fewer datagrams than the first one before the query
+    /// left it (fail-over or failure by time-out).
+    fn schedule_short(m: &QModel, k: usize, when: &str) -> Option<(&'static str, String)> {
+        if m.sched.len() >= 2 {
+            let s = m.sched.len() - 1;
+            if m.sched[s].len() < m.sched[0].len() {
+                return Some((
+                    "timing/server-schedule-differs-from-first-server",
+                    format!(
+                        "query {}: server #{} was sent {} datagram(s) before {}, the first server {} (relative send times per server, us: {:?})",
+                        k,
+                        s + 1,
+                        m.sched[s].len(),
+                        when,
+                        m.sched[0].len(),
+                        m.sched
+                    ),
+                ));
+            }
+        }
+        None
     }
 
     /// Does `msg` match query k on the criteria of the statement? Ok(matched question name) or
@@ -742,6 +801,24 @@ impl DnsH {
                     n_fail += 1;
                     self.qs[k].status = Status::Failed;
                     self.qs[k].edges.clear();
+                    if msg.is_none() && !self.qs[k].cur_dst.is_empty() {
+                        // Failure without a response in this step = failure by time-out (the other
+                        // paths to Failure in dispatch - unspecified server address, no source
+                        // address - cannot occur in these configurations). "moving to the next
+                        // server after 10 s": every server, the last one included, gets its 10 s
+                        // window and the same schedule as the first one.
+                        let window = self.now - self.qs[k].cur_dst_first;
+                        if window < PER_SERVER_S * SEC {
+                            let d = format!(
+                                "query {} reported Failed by time-out at t={} us, only {} us after the first transmission to the server it was last sent to (transmissions {:?})",
+                                k, self.now, window, self.qs[k].txlog
+                            );
+                            self.fail(out, "timing/failed-by-timeout-before-10s-on-last-server", d);
+                        }
+                        if let Some((sg, d)) = Self::schedule_short(&self.qs[k], k, "the query was failed by time-out") {
+                            self.fail(out, sg, d);
+                        }
+                    }
                     if let (Some(Err(cause)), Some(m)) = (&matched, msg) {
                         // not constrained by the statement (it speaks of completing with addresses)
                         let cause = *cause;
@@ -955,6 +1032,7 @@ impl Harness for DnsH {
                 cur_dst_first: 0,
                 last_tx: 0,
                 last_gap: 0,
+                sched: vec![],
                 txlog: vec![],
             });
         }
@@ -1086,8 +1164,8 @@ impl Harness for DnsH {
             use std::fmt::Write;
             let _ = write!(
                 model,
-                "[{:?} port={} wire={:?} edges={:?} dst={:?} first={} last={} gap={}]",
-                q.status, q.port, q.wire, q.edges, q.cur_dst, q.cur_dst_first, q.last_tx, q.last_gap
+                "[{:?} port={} wire={:?} edges={:?} dst={:?} first={} last={} gap={} sched={:?}]",
+                q.status, q.port, q.wire, q.edges, q.cur_dst, q.cur_dst_first, q.last_tx, q.last_gap, q.sched
             );
         }
         let fp = fp128(&(socks.as_str(), dig.as_str(), self.now, self.next_poll, model.as_str(), self.dead));
@@ -1185,7 +1263,11 @@ pub fn run(tier: Tier) -> i32 {
         g.outcomes.drain();
         g.obs.lock().unwrap().clear();
         g.obs_sample.lock().unwrap().clear();
-        let lim = Limits { max_states: 3_000_000, max_wall_s: if tier == Tier::Quick { 12.0 } else { 200.0 } };
+        // Thorough runs every configuration to its fixpoint (empty frontier). Memory guard: the search
+        // stops after the first level that brings the state count above 8000 (reported as a cap,
+        // exhaustive=false) - on a tree where responses can rewrite the stored query name every
+        // distinct name multiplies the states and a further level would not fit in memory.
+        let lim = Limits { max_states: if tier == Tier::Quick { 3_000_000 } else { 8_000 }, max_wall_s: if tier == Tier::Quick { 12.0 } else { 200.0 } };
         let mut samples = vec![];
         let t_cfg = std::time::Instant::now();
         let r = bfs::<DnsH>("dns", cfg, d, &lim, &mut rep.found, &mut samples);
